@@ -7,7 +7,7 @@ cp -r /repo/src "$D/src"
 ( cd "$D" && patch -s -p1 < "$P" )
 cd /verif
 set +e
-PYVC_REPO_SRC="$D/src" ./vc check "$PID" --tier "$TIER"
+PYVC_EVIDENCE_DIR="$D/evidence" PYVC_REPO_SRC="$D/src" ./vc check "$PID" --tier "$TIER"
 rc=$?
 rm -rf "$D"
 exit $rc
